@@ -1762,6 +1762,8 @@ def run(chk, cases=None):
     chk.extra["direct_clause_failures"] = len(direct)
     chk.extra["model_terms"] = len(terms)
     source_tie(chk, cases, outs)
+    from props.c05_tie import source_tieB   # second tie: loop body + epilogue of CTCPrefixSearch.forward
+    source_tieB(chk, cases, outs)
     reported = 0
     concrete = False
     # 1. clauses checked directly on the implementation (NaN, order, distinctness, element alone)
